@@ -71,6 +71,7 @@ RULES = [
     ("R10", re.compile(r'\brand::rng\(\)'), 'rand_rng()', "`rand::rng()` -> `rand_rng()` (prelude stub for the thread generator)"),
     ("R13", re.compile(r'\bif (\w+\.elapsed\(\)(?:\.as_secs_f64\(\))?) > ([\w.]+) \{'), r'let elapsed__v = \1; if elapsed__v > \2 {', "`if X.elapsed() > T {` -> `let elapsed__v = X.elapsed(); if elapsed__v > T {` (names the clock reading)"),
     ("R14", None, None, "`S.sample_goal(..).unwrap()` / `S.sample_uniform(..).unwrap()` -> `{ let sample__r = S.sample_…(..); proof { assert(sample__r is Ok); } sample__r.unwrap() }` (let-binding plus a named ghost obligation)"),
+    ("R17", re.compile(r'\bfn (\w+)\(([^)]*?)\b(\w+): &mut impl ([\w:]+)([^)]*)\)'), r'fn \1<R: \4>(\2\3: &mut R\5)', "`fn f(.., r: &mut impl Tr, ..)` -> `fn f<R: Tr>(.., r: &mut R, ..)` (argument-position impl Trait as a named type parameter)"),
     ("R11", re.compile(r'\bvec!\[false; ([^\]]+)\]'), r'vec_of_false(\1)', "`vec![false; n]` -> `vec_of_false(n)`"),
 ]
 
@@ -174,7 +175,15 @@ def _resolve(s, ann):
     fn = None
     if scope.startswith('fn '):
         name = scope[3:].strip()
+        ordinal = None
+        if '#' in name:
+            name, o = name.split('#', 1)
+            ordinal = int(o)
         cands = [f for f in s.functions() if f['name'] == name]
+        if ordinal is not None:
+            if ordinal > len(cands):
+                raise ExtractError("lost anchor: %s: function `%s` occurrence %d not found (%d occurrences)" % (ann.id, name, ordinal, len(cands)))
+            cands = [cands[ordinal - 1]]
         if len(cands) != 1:
             raise ExtractError("lost anchor: %s: function `%s` found %d times" % (ann.id, name, len(cands)))
         fn = cands[0]
@@ -370,6 +379,9 @@ class Generated:
         self.anns = []
         self.sha = ""
         self.repo_fns = {}
+        self.fatal = None       # first structural lost anchor (the unit is undecided)
+        self.lost = []          # annotations whose anchor was lost (id, dependent property tags)
+        self.clock_uses = []    # syntactic side condition of C07: uses of a clock reading outside the deadline test
 
     def fn_of(self, o):
         """function name a generated line belongs to (from its origin)"""
@@ -380,7 +392,7 @@ class Generated:
                 if l0 <= o['line'] <= l1:
                     return name
         if o.get('kind') == 'ann' and str(o.get('scope', '')).startswith('fn '):
-            return o['scope'][3:].strip()
+            return o['scope'][3:].strip().split('#')[0]
         return None
 
     def origin(self, line):
@@ -405,6 +417,14 @@ def build_unit(unit):
         p = os.path.join(VERIF, 'verus', 'prelude', pf)
         for k, ln in enumerate(open(p).read().splitlines(True), 1):
             chunks.append((ln if ln.endswith('\n') else ln + '\n', add_origin(dict(kind='prelude', file=pf, line=k))))
+    # unit-specific, explicit edits of the prelude text (each must match exactly once; line-preserving)
+    ptext = "".join(c[0] for c in chunks)
+    for old_t, new_t in getattr(unit, 'PRELUDE_EDITS', []):
+        if ptext.count(old_t) != 1 or old_t.count('\n') != new_t.count('\n'):
+            raise ExtractError("prelude edit does not apply exactly once / is not line preserving: %r" % old_t[:60])
+        ptext = ptext.replace(old_t, new_t)
+    plines = ptext.splitlines(True)
+    chunks = [(plines[i], chunks[i][1]) for i in range(len(chunks))]
     text = "".join(c[0] for c in chunks)
     orig = []
     for t, o in chunks:
@@ -447,6 +467,14 @@ def build_unit(unit):
         hits["R14"] = n14
         for k, v in hits.items():
             g.rule_hits[k] = g.rule_hits.get(k, 0) + v
+        # C07 side condition (syntactic, not a discharged obligation): a clock reading may only feed the deadline
+        # test `<reading> > timeout` / `<reading> > self.timeout` that rule R13 names `elapsed__v`
+        for (lineno, _), ln in zip(keep, lines2):
+            code = ln.split('//')[0]
+            for mm in re.finditer(r'\.elapsed\(\)', code):
+                if re.search(r'let elapsed__v = \w+\.elapsed\(\)(?:\.as_secs_f64\(\))?; if elapsed__v > (?:self\.)?timeout \{', code):
+                    continue
+                g.clock_uses.append(dict(file=rel, line=lineno, text=code.strip()))
         stext = "".join(lines2)
         sorig = []
         for (lineno, _), ln in zip(keep, lines2):
@@ -455,7 +483,20 @@ def build_unit(unit):
         s = Src(stext)
         edits = []
         for ai, ann in enumerate(unit.ANNS.get(rel, [])):
-            for (a, b, newtext, is_ann) in _resolve(s, ann):
+            try:
+                res_edits = _resolve(s, ann)
+            except ExtractError as e:
+                # A lost anchor of an annotation that declares which properties depend on it makes exactly those
+                # properties undecided for this unit; the annotation is left out and the other properties are still
+                # decided.  An annotation without declared dependants (ghost declarations, attributes, contracts of
+                # whole functions) is structural: the unit is undecided.
+                if ann.tags and ann.pos not in ('sig', 'attr', 'impl-start'):
+                    g.lost.append(dict(id=ann.id, tags=list(ann.tags), reason=str(e)))
+                    continue
+                if g.fatal is None:
+                    g.fatal = str(e)
+                continue
+            for (a, b, newtext, is_ann) in res_edits:
                 edits.append((a, b, newtext, is_ann, ann))
             g.anns.append(ann)
         edits.sort(key=lambda e: (e[0], e[1]))
